@@ -17,6 +17,9 @@ def world_rich(rnd):
         {"name": "c3", "dynamic": False, "body": [{"k": "order", "a": ["a"], "b": ["b"]}]},
         {"name": "c4", "dynamic": False, "body": [{"k": "soft", "e": B("eq", F("a"), lit(2))}]},
         {"name": "c5", "dynamic": False, "body": [E({"k": "in", "e": F("b"), "items": [{"k": "l", "p": "nl"}], "neg": False})]},
+        {"name": "c6", "dynamic": False, "body": [E(B("ge", {"k": "sum", "l": "l"}, F("a")))]},
+        # a dynamic block: its body is elaborated at construction too (and may raise there)
+        {"name": "dd", "dynamic": True, "body": [E(B("ne", F("a"), F("b"))), E(B("le", F("b"), lit(3)))]},
     ]
     cb = True
     return {"classes": {"A": {"base": "", "cb": cb, "fields": fields, "blocks": blocks}},
@@ -44,7 +47,7 @@ def family_F(tier, seed, n=None):
                     c_["flags"] = {"solve_fail_debug": 1}      # the diagnostics pass re-solves subsets: it must leave no trace either
                 ops.append({"op": "call", "call": c_})
             elif r < 0.65:
-                call = rnd.choice([mcall("o1"), wcall([E(B("ne", F("a"), F("k")))], "o1"),
+                call = rnd.choice([mcall("o1"), wcall([E(B("ne", F("a"), F("k")))], "o1"), wcall([E({"k": "dyn", "o": "", "b": "dd"})], "o1"),
                                    wcall([{"k": "foreach", "l": "l", "v": "j", "it": True, "idx": False,
                                            "body": [E(B("le", {"k": "it", "v": "j", "p": ""}, F("b")))]}], "o1")])
                 op = {"op": "call", "call": call}
@@ -55,7 +58,7 @@ def family_F(tier, seed, n=None):
                 ops.append(op)
             elif r < 0.8:
                 ops.append({"op": "construct", "o": "o2" if not any(o.get("o") == "o2" for o in ops) else "o3",
-                            "fault": {"cls": "A", "blk": rnd.choice(["c1", "c2", "c3", "c4", "c5"]), "pos": rnd.randint(0, 1)}})
+                            "fault": {"cls": "A", "blk": rnd.choice(["c1", "c2", "c3", "c4", "c5", "c6", "dd", "dd"]), "pos": rnd.randint(0, 1)}})
                 if sum(1 for o in ops if o["op"] == "construct") >= 3:
                     break
             else:
